@@ -16,7 +16,7 @@ type VerifSnap struct {
 	STM            Color
 	EnPassant      Square
 	Castles        Castles
-	FiftyCnt       Depth
+	FiftyCnt       int
 }
 
 // VerifSnapshot returns a deep copy of b.
@@ -30,13 +30,13 @@ func (b *Board) VerifSnapshot() VerifSnap {
 		STM:            b.STM,
 		EnPassant:      b.EnPassant,
 		Castles:        b.Castles,
-		FiftyCnt:       b.FiftyCnt,
+		FiftyCnt:       int(b.FiftyCnt),
 	}
 }
 
 // VerifRestore builds a Board from a snapshot (inverse of VerifSnapshot).
 func VerifRestore(s VerifSnap) *Board {
-	return &Board{
+	b := &Board{
 		SquaresToPiece: s.SquaresToPiece,
 		Pieces:         s.Pieces,
 		Colors:         s.Colors,
@@ -45,9 +45,13 @@ func VerifRestore(s VerifSnap) *Board {
 		STM:            s.STM,
 		EnPassant:      s.EnPassant,
 		Castles:        s.Castles,
-		FiftyCnt:       s.FiftyCnt,
 	}
+	verifSetInt(&b.FiftyCnt, s.FiftyCnt)
+	return b
 }
+
+// verifSetInt stores v in a field of whatever signed integer type the field has.
+func verifSetInt[T ~int8 | ~int16 | ~int32 | ~int64 | ~int](p *T, v int) { *p = T(v) }
 
 // VerifCalcHash exposes the from-scratch hash computation.
 func (b *Board) VerifCalcHash() Hash { return b.calculateHash() }
